@@ -413,6 +413,7 @@ func (c03Oracle) AfterAdmin(c *tableCtx, op *Op, pan any, applied bool) *Violati
 	if p := func() (p any) {
 		defer func() { p = recover() }()
 		routes = c.r.Routes()
+		pokeRoutes(routes)
 		return nil
 	}(); p != nil {
 		return mk("no-panic", "routes-panic", "Routes() panicked: "+classifyPanic(p))
@@ -539,7 +540,9 @@ func (c04Oracle) AfterAdmin(c *tableCtx, op *Op, pan any, applied bool) *Violati
 	routes := map[string][]string{}
 	func() {
 		defer func() { recover() }()
-		routes = canonRoutes(c.r.Routes())
+		raw := c.r.Routes()
+		pokeRoutes(raw)
+		routes = canonRoutes(raw)
 	}()
 	for _, pat := range c.m.SortedPatterns() {
 		want := c.m.MethodSet(pat)
@@ -607,4 +610,16 @@ func init() {
 		},
 		Exec: func(w *World, st *Stats) (*Violation, RunInfo) { return execTable(w, st, c04Oracle{}) },
 	})
+}
+
+// pokeRoutes does what a caller may do with the lists Routes() hands out: append to them (it never
+// writes to an element it was given).  The appended entry lives in the caller's slice only; a library
+// that lets it show through anywhere else - another pattern's list, another router, an Allow header -
+// has handed out aliased spare capacity.  Only called outside simulated tasks.
+func pokeRoutes(routes map[string][]string) {
+	for _, v := range routes {
+		if cap(v) > len(v) {
+			_ = append(v, "X-APPENDED-BY-CALLER")
+		}
+	}
 }
